@@ -7,6 +7,7 @@ import BezierVerif.Model.Sweep
 import BezierVerif.Model.MinDist
 import BezierVerif.Model.Extremes
 import BezierVerif.Model.Nodelist
+import BezierVerif.Model.Sample
 import BezierVerif.Gen.Box
 
 namespace ModelDriver
@@ -126,6 +127,14 @@ def showTok : Nodelist.Tok QP → String
   | .C a b p => "C " ++ showRats [a.1, a.2, b.1, b.2, p.1, p.2]
   | .Z => "Z"
 
+partial def parsePairs2 : List String → Option (List (ℚ × ℚ))
+  | [] => some []
+  | a :: b :: rest => do
+      let a ← parseRat a; let b ← parseRat b
+      let more ← parsePairs2 rest
+      some ((a, b) :: more)
+  | _ => none
+
 def handle (name : String) (args : List String) : String :=
   match name with
   | "polygon.signedArea" =>
@@ -204,6 +213,43 @@ def handle (name : String) (args : List String) : String :=
         | none => "IndexError"
       | _ => "bad-args"
     | _ => "bad-args"
+  | "sample.regular" =>
+    -- lut pairs | targets
+    let (l, r) := args.span (· ≠ "|")
+    match parsePairs2 l, (r.drop 1).mapM parseRat with
+    | some lut, some ds =>
+      match Sample.regular lut ds with
+      | some res => "ok " ++ showRats res
+      | none => "IndexError"
+    | _, _ => "bad-args"
+  | "path.index" =>
+    match args with
+    | [n, t] =>
+      match n.toNat?, parseRat t with
+      | some n, some t =>
+        if t = 1 then "end"
+        else
+          let r := Sample.pathIndex (K := ℚ) n t
+          if r.1 < n then "ok " ++ toString r.1 ++ " " ++ showRat r.2 else "IndexError"
+      | _, _ => "bad-args"
+    | _ => "bad-args"
+  | "path.pointAt" =>
+    match args with
+    | t :: rest =>
+      match parseRat t, parseSegs rest with
+      | some t, some (l, []) =>
+        match Sample.pathPointAt l t with
+        | some p => "ok " ++ showRats [p.x, p.y]
+        | none => "IndexError"
+      | _, _ => "bad-args"
+    | _ => "bad-args"
+  | "sample.joinLines" =>
+    match args.mapM parseRat with
+    | some xs =>
+      match parsePairs2 (xs.map showRat) with
+      | some ps => "ok " ++ showSegs (Sample.joinLines (ps.map fun p => (⟨p.1, p.2⟩ : Pt ℚ)))
+      | none => "bad-args"
+    | none => "bad-args"
   | _ => "nomodel"
 
 end ModelDriver
